@@ -11,7 +11,7 @@ SPEC = {
         "AM.Silence.index_inv_preserved", "AM.Silence.query_eq_filter",
         "AM.Silence.reload_lossless", "AM.Silence.effective_after_merge",
         "AM.Silence.stMi_mergeOne", "AM.Silence.merge_stale_index_counterexample", "AM.Silence.set_keeps_matchers",
-        "AM.Gossip.full_state_superset", "AM.Gossip.mergeRemote_covers",
+        "AM.Gossip.full_state_superset", "AM.Gossip.mergeRemote_covers", "AM.Gossip.broadcast_routed_once",
     ],
     "engines": [
         {"name": "silmerge", "pkg": "./silmerge", "search_cases": 20000},
@@ -22,6 +22,9 @@ SPEC = {
         # "connected instances converge": a lost update broadcast is repaired by the periodic full-state exchange of the
         # gossip layer (delegate.LocalState(join=false) -> MergeRemoteState), C19's engine
         {"name": "gossip", "pkg": "./gossip", "search_cases": 6000, "quick_cases": 600, "only": ["full_state_superset"]},
+        # "eventually effective on every connected instance" over a real memberlist on loopback: several updates queued on one
+        # instance within one gossip interval all reach every peer by gossip (none displaces another in the queue): C19's engine
+        {"name": "mesh", "pkg": "./mesh", "search_cases": 4, "timeout_quick": 400, "only": ["broadcast_routed_once", "full_state_superset"]},
     ],
     "rule": "random op sequences on 2-3 real silence.Silences (+ Silencer) under synctest virtual time: local Set (create / compatible and "
             "incompatible edit, among them every one-component variation of the matcher sets) and Expire whose broadcasts are captured into a pool, scripted channel delivering pool entries "
